@@ -189,4 +189,36 @@ theorem skel_clusterClient_Ping_ok : skel_clusterClient_Ping = ([
   "c.ClusterClient.Ping(ctx).Err",
   "c.ClusterClient.Ping"] : List String) := rfl
 
+theorem flags_session_ok : flags_session = ([
+  "String redis-ca-path = \"\"",
+  "StringSlice redis-cluster-connection-urls = []string{}",
+  "Int redis-connection-idle-timeout = 0",
+  "String redis-connection-url = \"\"",
+  "Bool redis-insecure-skip-tls-verify = false",
+  "String redis-password = \"\"",
+  "StringSlice redis-sentinel-connection-urls = []string{}",
+  "String redis-sentinel-master-name = \"\"",
+  "String redis-sentinel-password = \"\"",
+  "Bool redis-use-cluster = false",
+  "Bool redis-use-sentinel = false",
+  "String redis-username = \"\"",
+  "Bool session-cookie-minimal = false",
+  "String session-store-type = \"cookie\""] : List String) := rfl
+
+theorem optionTags_session_ok : optionTags_session = ([
+  "redis-ca-path redis_ca_path RedisStoreOptions.CAPath string",
+  "redis-cluster-connection-urls redis_cluster_connection_urls RedisStoreOptions.ClusterConnectionURLs []string",
+  "redis-connection-idle-timeout redis_connection_idle_timeout RedisStoreOptions.IdleTimeout int",
+  "redis-connection-url redis_connection_url RedisStoreOptions.ConnectionURL string",
+  "redis-insecure-skip-tls-verify redis_insecure_skip_tls_verify RedisStoreOptions.InsecureSkipTLSVerify bool",
+  "redis-password redis_password RedisStoreOptions.Password string",
+  "redis-sentinel-connection-urls redis_sentinel_connection_urls RedisStoreOptions.SentinelConnectionURLs []string",
+  "redis-sentinel-master-name redis_sentinel_master_name RedisStoreOptions.SentinelMasterName string",
+  "redis-sentinel-password redis_sentinel_password RedisStoreOptions.SentinelPassword string",
+  "redis-use-cluster redis_use_cluster RedisStoreOptions.UseCluster bool",
+  "redis-use-sentinel redis_use_sentinel RedisStoreOptions.UseSentinel bool",
+  "redis-username redis_username RedisStoreOptions.Username string",
+  "session-cookie-minimal session_cookie_minimal CookieStoreOptions.Minimal bool",
+  "session-store-type session_store_type SessionOptions.Type string"] : List String) := rfl
+
 end O2P.Expect.C13
